@@ -20,12 +20,17 @@ fn histories() -> Vec<(&'static str, Vec<u8>)> {
         ("to-self", vec![OWNER0]),
         ("away-and-back", vec![NEWOWNER, OWNER0]),
         ("two-hops", vec![NEWOWNER, THIRD]),
+        // one transfer, and the rightful call is made under a BLANKET authorisation (every address authorises whatever is
+        // asked of it) instead of the holder's exact one
+        ("everyone", vec![NEWOWNER]),
     ]
 }
 
 struct Roles {
     holder: Addr,
     former: Option<Addr>,
+    /// the rightful call is made under `*` (everybody authorises) instead of the holder's exact authorisation
+    blanket: bool,
 }
 
 /// the principal classes of C06 for a role with current `holder`
@@ -48,7 +53,11 @@ fn principals(r: &Roles, other_role: &Addr, beneficiary: &Addr) -> Vec<(String, 
     // would hide a missing authorisation check); the rightful holder's call comes last
     let h = r.holder.tok();
     let (mut refused, rightful): (Vec<_>, Vec<_>) = v.into_iter().partition(|(a, _)| *a != h);
-    refused.extend(rightful);
+    if r.blanket {
+        refused.push(("*".to_string(), "everyone".to_string()));
+    } else {
+        refused.extend(rightful);
+    }
     refused
 }
 
@@ -64,7 +73,7 @@ pub fn gen_c06(run: &mut Run, seed: u64, thorough: bool) {
         run.op("time 1000 100", "time");
         let tk = Addr::c(200);
         run.op(&format!("tk.new {} {} - {} {} {} 7 {maxlive}", tk.tok(), owner0.tok(), hex::encode([7u8; 32]), hx(b"T"), hx(b"T")), "construct");
-        let mut roles = Roles { holder: owner0.clone(), former: None };
+        let mut roles = Roles { holder: owner0.clone(), former: None, blanket: *hname == "everyone" };
         for n in hops {
             let new = Addr::c(*n);
             let o = run.op(&format!("tk.transfer_ownership {} {}", new.tok(), roles.holder.tok()), "history-transfer");
@@ -103,7 +112,7 @@ pub fn gen_c06(run: &mut Run, seed: u64, thorough: bool) {
         run.scenario("op", &format!("c06-op-{hname}"));
         run.op("time 1000 10", "time");
         run.op(&format!("op.new {} {} {}", Addr::c(160).tok(), owner0.tok(), Addr::c(161).tok()), "construct");
-        let mut roles = Roles { holder: owner0.clone(), former: None };
+        let mut roles = Roles { holder: owner0.clone(), former: None, blanket: *hname == "everyone" };
         for n in hops {
             let new = Addr::c(*n);
             let o = run.op(&format!("op.transfer_ownership {} {}", new.tok(), roles.holder.tok()), "history-transfer");
@@ -139,7 +148,7 @@ pub fn gen_c06(run: &mut Run, seed: u64, thorough: bool) {
         let spender = Addr::c(10);
         run.op(&format!("sac.mint {} {} 500", tok.tok(), spender.tok()), "env-mint");
         run.op(&format!("gs.pay_gas {} {} {} {} {} {} 200 - {}", Addr::c(30).tok(), hx(b"eth"), hx(b"0x"), hx(b"p"), spender.tok(), tok.tok(), spender.tok()), "history-pay");
-        let mut roles = Roles { holder: owner0.clone(), former: None };
+        let mut roles = Roles { holder: owner0.clone(), former: None, blanket: *hname == "everyone" };
         for n in hops {
             let new = Addr::c(*n);
             let o = run.op(&format!("gs.transfer_ownership {} {}", new.tok(), roles.holder.tok()), "history-transfer");
@@ -148,7 +157,7 @@ pub fn gen_c06(run: &mut Run, seed: u64, thorough: bool) {
                 roles.holder = new;
             }
         }
-        let croles = Roles { holder: collector.clone(), former: None };
+        let croles = Roles { holder: collector.clone(), former: None, blanket: *hname == "everyone" };
         for (ep, args, who_is_holder) in [
             ("gs.collect_fees", format!("{} {} 3", bene.tok(), tok.tok()), "collector"),
             ("gs.refund", format!("{} {} {} 2", hx(b"m"), bene.tok(), tok.tok()), "collector"),
@@ -174,7 +183,7 @@ pub fn gen_c06(run: &mut Run, seed: u64, thorough: bool) {
             let ws = g.mk_set(2, 0, 2);
             g.new_gateway(&format!("c06-gw-{hname}"), vec![ws.clone()], 2, 1000);
             // histories on the OPERATOR role (the one guarding the bypass), and one owner transfer
-            let mut oroles = Roles { holder: g.operator.clone(), former: None };
+            let mut oroles = Roles { holder: g.operator.clone(), former: None, blanket: *hname == "everyone" };
             for n in hops {
                 let new = Addr::c(if *n == OWNER0 { OPER0 } else { *n });
                 let o = g.run.op(&format!("gw.transfer_operatorship {} {}", new.tok(), oroles.holder.tok()), "history-transfer");
@@ -184,7 +193,7 @@ pub fn gen_c06(run: &mut Run, seed: u64, thorough: bool) {
                 }
             }
             let owner = g.owner.clone();
-            let mut wroles = Roles { holder: owner.clone(), former: None };
+            let mut wroles = Roles { holder: owner.clone(), former: None, blanket: *hname == "everyone" };
             // bypass rotation under every principal (delay 1000 and no time passing: only the bypass can succeed)
             for (au, pc) in principals(&oroles, &owner, &bene) {
                 let cand = g.mk_set(2, 0, 2);
@@ -247,7 +256,7 @@ pub fn gen_c06(run: &mut Run, seed: u64, thorough: bool) {
         let mut i = crate::itsgen::I::new(run, seed);
         for (hname, hops) in &hists {
             i.setup(&format!("c06-its-{hname}"));
-            let mut roles = Roles { holder: i.owner.clone(), former: None };
+            let mut roles = Roles { holder: i.owner.clone(), former: None, blanket: *hname == "everyone" };
             for n in hops {
                 let new = Addr::c(*n);
                 let o = i.op(&format!("its.transfer_ownership {} {}", new.tok(), roles.holder.tok()), "history-transfer");
@@ -284,7 +293,7 @@ pub fn gen_c06(run: &mut Run, seed: u64, thorough: bool) {
             run.scenario("up", &format!("c06-up-{kind}-{hname}"));
             run.op("time 1000 10", "time");
             run.op(&format!("up.new {}", owner0.tok()), "construct");
-            let mut roles = Roles { holder: owner0.clone(), former: None };
+            let mut roles = Roles { holder: owner0.clone(), former: None, blanket: *hname == "everyone" };
             for n in hops {
                 let new = Addr::c(*n);
                 let o = run.op(&format!("up.transfer_ownership {kind} {} {}", new.tok(), roles.holder.tok()), "history-transfer");
@@ -330,6 +339,7 @@ pub fn gen_c07(run: &mut Run, seed: u64, thorough: bool) {
             (format!("{}!", right.tok()), "named-address-other-args"),
             (format!("{},{}", cp.tok(), owner.tok()), "counterparty-and-owner"),
             (right.tok(), "named-address"),
+            ("*".to_string(), "everyone"),
         ]
     };
     // ---------------- token: with and without allowances ----------------
